@@ -528,7 +528,7 @@ def install_c16():
 # C03 (contexts): the state at the outermost __enter__ comes back at the matching __exit__.
 # The suite's blocks are written by the repository's authors; what the monitor cannot know
 # is whether a block holds something the documentation does not list as reversible - a
-# difference is therefore reported with the test's name and triaged once (DESIGN 9.10).
+# difference is therefore reported with the test's name and triaged once (DESIGN 9.4c).
 # ---------------------------------------------------------------------------------------
 def install_c03():
     import re
